@@ -72,7 +72,9 @@ CLAIMED = {
               "incidence with fractions summing to one, and the duct/bypass ring pattern for 1-3 ducts; soundness "
               "lemmas turn the Boolean certificates into propositions.  Geometry: Lean theorems over the trace of "
               "calculate_geometry with a SYMBOLIC ring count prove, for all n and all dimensions, that flow areas + "
-              "pins + wires tile the inner hexagon (SE2 flag on/off) and that duct and bypass cells tile their annuli."),
+              "pins + wires tile the inner hexagon (SE2 flag on/off) and that duct and bypass cells tile their annuli.  The numeric oracle "
+              "re-evaluates symmetry of the neighbour relation over all cells (coolant, wall, bypass), so that a broken certificate comes "
+              "with a failing input."),
         note=COMMON_NOTE + ("T2 table dump (encoder round-trip tested; decoder in Lean) and T1 trace with symbolic n.  "
                             "Partial: centroid coordinates (agreement with adjacency, six-fold symmetry, wall and bypass "
                             "cells on the mid-surface of their own annulus for 1-3 ducts) are checked "
@@ -117,7 +119,8 @@ CLAIMED = {
               "flux balance, the mid-wall parabola value, zero outer flux when adiabatic, and the ordering without "
               "heating - proved about definitions regenerated on every run by executing the real _calc_duct_temp "
               "methods (rodded, low-fidelity single-node and six-node: each wall cell against its OWN coolant node) on symbolic "
-              "inputs."),
+              "inputs.  The same identities are evaluated inside real sweeps: every wall cell of every low-fidelity region right after the "
+              "assembly computed a plane, against the gap temperatures / film coefficients / adiabatic flag the assembly was given."),
         note=COMMON_NOTE + ("T1 tracing translator (every duct cell of several real regions must reduce to the single "
                             "closed form the theorems are about; emitter validated by Lean-over-Q evaluation); the "
                             "constants L/2=t/2, L^2/8=t^2/8 are checked numerically; float round-off is measured by "
@@ -273,7 +276,11 @@ CLAIMED = {
               "real code - structural fingerprint of DASSH_Input.data before/after Reactor(...) for plain, FuelModel, "
               "PinModel, dump and hot-spot inputs; a second construction and a fresh execution must be bitwise identical; "
               "dassh main with 2-3 time points is run serially, with a worker pool and one time point alone and the "
-              "per-time-point outputs are compared."),
+              "per-time-point outputs are compared (plain, fuel, dump, planes and detailed-table inputs).  Serial = parallel is also a theorem "
+              "of the state-passing model (c16_serial_eq_parallel: no time point changes the input object => the serial run produces what "
+              "the workers produce from their copies; counter-model when one does); its hypothesis is observed: fingerprint of the parsed "
+              "input after a COMPLETE time point (construction, sweep with output, post-processing), and a Reactor built from the same "
+              "input object AFTER a sweep must reproduce the first one bit for bit."),
         note=COMMON_NOTE + ("hand abstract model; determinism of NumPy/BLAS reductions, the OS and the multiprocessing runtime "
                             "are trusted, not modelled (named runtime behaviour the model cannot exhibit); time stamps are "
                             "stripped before comparing text outputs."),
@@ -351,7 +358,10 @@ CLAIMED = {
               "does not (counter-example); tied to Orificing.distribute by a fixed-point correspondence on faithful "
               "parametric tables with mixed assembly types.  Iteration history: with the mixed-mean outlet temperature of the previous "
               "sweep over ALL its time steps the rescaled total carries the same heat to the target (c20_history_total; the "
-              "last-step mean does not, counter-model); real _summarize_group_data + distribute are run on two-iteration histories."),
+              "last-step mean does not, counter-model); real _summarize_group_data + distribute are run on two-iteration histories.  The "
+              "set-up chain group_by_power -> run_parametric -> distribute is run on a real Orificing object (recycled results, two "
+              "interleaved assembly types, each assembly held against its own type's curve), and a grouping error is accepted only when no "
+              "cut-off the search can reach yields the requested number of groups."),
         note=COMMON_NOTE + ("T3 hand model + differential correspondence on Orificing instances made with __new__.  "
                             "Partial: the pressure-drop clause for the last group does not hold in the model (and is "
                             "reported as an assumption, not as a violation, because distribute() itself stops with an "
